@@ -35,9 +35,21 @@ def dotted(node):
 SPECIAL = ('_replace', '_asdict', '_make', '_fields', '_field_defaults')
 
 
+DERIVED = {}       # record name -> {property name: (self name, expression)}
+
+
+def _frozen_dataclass(cd):
+    for d in cd.decorator_list:
+        if isinstance(d, ast.Call) and (dotted(d.func) or '').split('.')[-1] == 'dataclass':
+            if any(k.arg == 'frozen' and isinstance(k.value, ast.Constant) and k.value.value is True for k in d.keywords):
+                return True
+    return False
+
+
 def find_records(trees):
     """{name: ([field, ...], {field: default node})}"""
     out = {}
+    DERIVED.clear()
     for tree in trees:
         for st in tree.body:
             if isinstance(st, ast.Assign) and len(st.targets) == 1 and isinstance(st.targets[0], ast.Name) and \
@@ -59,8 +71,12 @@ def find_records(trees):
                             break
                 if flds and isinstance(st.value.args[0], ast.Constant) and st.value.args[0].value == st.targets[0].id:
                     out[st.targets[0].id] = (flds, {})
-            elif isinstance(st, ast.ClassDef) and any((dotted(b) or '').split('.')[-1] == 'NamedTuple' for b in st.bases):
+            elif isinstance(st, ast.ClassDef) and (any((dotted(b) or '').split('.')[-1] == 'NamedTuple' for b in st.bases) or
+                                                   (not st.bases and _frozen_dataclass(st))):
+                # (a frozen dataclass of plain fields is read like a tuple record: nothing can subscript it, so
+                # writing its field reads as positions cannot collide with anything the code does)
                 flds, dfl, plain = [], {}, True
+                derived = {}
                 for x in st.body:
                     if isinstance(x, ast.AnnAssign) and isinstance(x.target, ast.Name):
                         flds.append(x.target.id)
@@ -70,10 +86,20 @@ def find_records(trees):
                         pass
                     elif isinstance(x, ast.Pass):
                         pass
+                    elif isinstance(x, ast.FunctionDef) and [dotted(d) for d in x.decorator_list] == ['property'] and \
+                            len(x.args.args) == 1:
+                        body = [y for y in x.body if not (isinstance(y, ast.Expr) and isinstance(y.value, ast.Constant))]
+                        if len(body) == 1 and isinstance(body[0], ast.Return) and body[0].value is not None:
+                            derived[x.name] = (x.args.args[0].arg, body[0].value)
+                        else:
+                            plain = False
                     else:
                         plain = False
-                if flds and plain and not st.decorator_list:
+                deco_ok = not st.decorator_list or _frozen_dataclass(st)
+                if flds and plain and deco_ok:
                     out[st.name] = (flds, dfl)
+                    if derived:
+                        DERIVED[st.name] = derived
     # used as more than a tuple anywhere: leave every record alone (cannot tell whose it is)
     for tree in trees:
         for n in ast.walk(tree):
@@ -335,6 +361,30 @@ def detuple(trees):
             return y
         if isinstance(y, ast.Attribute) and isinstance(y.ctx, ast.Load):
             r = ty.type_of(y.value, lv)
+            if r and y.attr in DERIVED.get(r, {}):
+                # a derived value of the record: its expression with self := the record
+                sn, expr = DERIVED[r][y.attr]
+                val = _copy(expr)
+
+                def sub(z):
+                    for fld_, v_ in ast.iter_fields(z):
+                        if isinstance(v_, list):
+                            for i2_, w_ in enumerate(v_):
+                                if isinstance(w_, ast.Name) and w_.id == sn:
+                                    v_[i2_] = _copy(y.value)
+                                elif isinstance(w_, ast.AST):
+                                    sub(w_)
+                        elif isinstance(v_, ast.Name) and v_.id == sn:
+                            setattr(z, fld_, _copy(y.value))
+                        elif isinstance(v_, ast.AST):
+                            sub(v_)
+                holder = ast.Expr(value=val)
+                sub(holder)
+                val = holder.value
+                for z in ast.walk(val):
+                    ast.copy_location(z, y)
+                stats['reads'] += 1
+                return fix_typed(val, y.value, r, lv)
             if r and y.attr in recs[r][0]:
                 rewrite(y, lv)
                 new = ast.Subscript(value=y.value, slice=ast.Constant(value=recs[r][0].index(y.attr)), ctx=ast.Load())
@@ -347,6 +397,32 @@ def detuple(trees):
             stats['creations'] += 1
             return _as_tuple(y, recs)
         return y
+    def fix_typed(val, rec_expr, r, lv):
+        """rewrite field reads `<rec_expr>.field` inside val (rec_expr holds record r), then the rest as usual"""
+        key = ast.dump(rec_expr)
+
+        def rec2(z):
+            for fld_, v_ in ast.iter_fields(z):
+                if isinstance(v_, list):
+                    for i2_, w_ in enumerate(v_):
+                        if isinstance(w_, ast.AST):
+                            v_[i2_] = one(w_)
+                elif isinstance(v_, ast.AST):
+                    setattr(z, fld_, one(v_))
+
+        def one(w_):
+            if isinstance(w_, ast.Attribute) and isinstance(w_.ctx, ast.Load) and ast.dump(w_.value) == key and \
+               w_.attr in recs[r][0]:
+                new = ast.Subscript(value=fix(w_.value, lv), slice=ast.Constant(value=recs[r][0].index(w_.attr)), ctx=ast.Load())
+                ast.copy_location(new, w_)
+                ast.copy_location(new.slice, w_)
+                stats['reads'] += 1
+                return new
+            rec2(w_)
+            return w_
+        holder = ast.Expr(value=val)
+        rec2(holder)
+        return holder.value
     for tree in trees:
         rewrite(tree, {})
     return stats
@@ -522,3 +598,92 @@ def dewalrus(trees):
     for tree in trees:
         tree.body = block(tree.body)
     return n_rw[0]
+
+
+# ---------------------------------------------------------------------------------------------------------------
+# module-level whole-number constants (END_1 = 0, SGN_REVERSE = -1): the number itself
+
+def deconst(modules):
+    """modules: {name: tree}.  A module-level name bound exactly once to an integer literal, never bound anywhere else
+    in its module (no local, parameter, loop target, global statement of that name), is the literal wherever it is
+    read - in its own module and in modules that import it by name (and do not bind the name themselves).
+    Floats are left alone (physical constants are named in the formulas on purpose).  Returns the number of reads
+    rewritten."""
+    def int_lit(v):
+        neg = False
+        if isinstance(v, ast.UnaryOp) and isinstance(v.op, ast.USub):
+            neg, v = True, v.operand
+        if isinstance(v, ast.Constant) and isinstance(v.value, int) and not isinstance(v.value, bool):
+            return -v.value if neg else v.value
+        return None
+    consts = {}
+    for mname, tree in modules.items():
+        top = {}
+        for st in tree.body:
+            if isinstance(st, ast.Assign) and len(st.targets) == 1 and isinstance(st.targets[0], ast.Name):
+                top.setdefault(st.targets[0].id, []).append(st)
+        bound = {}
+        for n in ast.walk(tree):
+            if isinstance(n, ast.Name) and isinstance(n.ctx, (ast.Store, ast.Del)):
+                bound[n.id] = bound.get(n.id, 0) + 1
+            elif isinstance(n, ast.arg):
+                bound[n.arg] = bound.get(n.arg, 0) + 2
+            elif isinstance(n, (ast.Global, ast.Nonlocal)):
+                for x in n.names:
+                    bound[x] = bound.get(x, 0) + 2
+            elif isinstance(n, (ast.FunctionDef, ast.ClassDef)):
+                bound[n.name] = bound.get(n.name, 0) + 2
+            elif isinstance(n, ast.alias):
+                nm = (n.asname or n.name).split('.')[0]
+                bound[nm] = bound.get(nm, 0) + 2
+        for nm, sts in top.items():
+            v = int_lit(sts[0].value)
+            if len(sts) == 1 and v is not None and bound.get(nm) == 1:
+                consts[(mname, nm)] = v
+    if not consts:
+        return 0
+    n_rw = 0
+    for mname, tree in modules.items():
+        table = {nm: v for (mn, nm), v in consts.items() if mn == mname}
+        for st in tree.body:
+            if isinstance(st, ast.ImportFrom):
+                src = (st.module or '').split('.')[-1]
+                for a in st.names:
+                    if (src, a.name) in consts:
+                        table[a.asname or a.name] = consts[(src, a.name)]
+        # a name imported AND bound again in this module is not a constant here
+        rebound = set()
+        for n in ast.walk(tree):
+            if isinstance(n, ast.Name) and isinstance(n.ctx, (ast.Store, ast.Del)) and n.id in table and (mname, n.id) not in consts:
+                rebound.add(n.id)
+            elif isinstance(n, ast.arg) and n.arg in table:
+                rebound.add(n.arg)
+        for nm in rebound:
+            table.pop(nm, None)
+        if not table:
+            continue
+
+        def rec(x):
+            nonlocal n_rw
+            for fld, val in ast.iter_fields(x):
+                if isinstance(val, list):
+                    for i_, y in enumerate(val):
+                        if isinstance(y, ast.Name) and isinstance(y.ctx, ast.Load) and y.id in table:
+                            val[i_] = lit(y)
+                        elif isinstance(y, ast.AST):
+                            rec(y)
+                elif isinstance(val, ast.Name) and isinstance(val.ctx, ast.Load) and val.id in table:
+                    setattr(x, fld, lit(val))
+                elif isinstance(val, ast.AST):
+                    rec(val)
+
+        def lit(y):
+            nonlocal n_rw
+            n_rw += 1
+            v = table[y.id]
+            new = ast.Constant(value=abs(v)) if v >= 0 else ast.UnaryOp(op=ast.USub(), operand=ast.Constant(value=-v))
+            for z in ast.walk(new):
+                ast.copy_location(z, y)
+            return new
+        rec(tree)
+    return n_rw
